@@ -119,7 +119,7 @@ def glue_val(w, st, so, sh):
 class Shape:
     """kinds: string over R (rule), G (glue, finite stretch), F (glue, fil stretch), P (penalty), K (explicit kern), k (font kern)."""
 
-    def __init__(self, kinds, rs_order=NORMAL, tex_discards=False):
+    def __init__(self, kinds, rs_order=NORMAL, tex_discards=True):
         self.kinds = kinds
         self.rs_order = rs_order
         self.tex_discards = tex_discards
@@ -200,9 +200,10 @@ def line(a, frm, to):
             i = frm
             while i < n and items[i]["kind"] in ("G", "P", "K"):
                 i += 1
+            if i > to:
+                raise ValueError("shape outside this oracle: only discardable items between two breakpoints (TeX's break_width then runs past the next break)")
         else:
-            # as this implementation forms its lines (post_line_break): only the break item itself goes
-            # (glue dropped; a kern is zeroed and stays at the end of the previous line; a penalty has no width)
+            # variant kept for reference: only the break item itself goes (the tree before fix c12 formed lines this way)
             i = frm + 1
     rs_w, rs_st, rs_sh = a["rs"]
     w, st, sh = rs_w, (rs_st if shape.rs_order == NORMAL else I(0)), rs_sh
